@@ -51,6 +51,9 @@ structure PyObj where
   hasDict : Probe Bool
   /-- items of `o.__dict__` -/
   attrs : Probe (List (Key × ObjId))
+  /-- `o.__class__.__name__` (read for the local named `self` of a frame): raises when `__getattribute__` or a
+      `__class__` property raises; differs from `tyName` for proxies.  Default: readable, the type name. -/
+  clsName : Probe String := .ok tyName
 deriving Repr
 
 /-- the inert object an out-of-range reference denotes -/
@@ -101,8 +104,9 @@ structure Shape where
   excArgs : Probe (List ObjId)
   hasDict : Probe Bool
   attrs : Probe (List (Key × ObjId))
+  clsName : Probe String
 
 def PyObj.shape (o : PyObj) : Shape :=
-  ⟨o.tyName, o.tyRepr, o.isDictExact, o.len, o.dictItems, o.seq, o.isExc, o.excArgs, o.hasDict, o.attrs⟩
+  ⟨o.tyName, o.tyRepr, o.isDictExact, o.len, o.dictItems, o.seq, o.isExc, o.excArgs, o.hasDict, o.attrs, o.clsName⟩
 
 end Heap
